@@ -32,6 +32,11 @@ func typedCfgs() []gen.LCfg {
 		mk(func(c *gen.LCfg) { c.PSrcAllot, c.PDstAllot, c.PPortionVar, c.PRemaining = 45, 50, 40, 50 }),
 		mk(func(c *gen.LCfg) { c.PMetaStmt, c.PSave, c.PVarAcct = 40, 30, 50 }),
 		mk(func(c *gen.LCfg) { c.Depth, c.Fanout, c.MaxStmts = 4, 4, 6 }),
+		// ordinary accounts whose names resemble @world, under send-all and in the middle of lists
+		mk(func(c *gen.LCfg) {
+			c.Accounts = []string{"World", "WORLD", "wOrld", "worlds", "world:a", "a:world", "a", "world_"}
+			c.PSendAll, c.PSrcSeq, c.POverdraft, c.PWorld = 50, 50, 30, 5
+		}),
 	}
 }
 
